@@ -238,7 +238,7 @@ func (x *Explorer) Run() *Report {
 					}
 				}
 				res := x.runPath(solver, script)
-				if solver.Queries > 20000 {
+				if solver.Queries > 20000 || solver.Dead() {
 					solver.Close()
 					solver = nil
 				}
@@ -323,6 +323,15 @@ func (x *Explorer) runPath(solver *smt.Solver, script []int) (res *PathResult) {
 				case abortPath:
 					res.Status, res.Msg = r.kind, r.msg
 				case targetPanic:
+					// "unknown = keep" lets a path run on after a feasibility query
+					// timed out; before blaming the harness, settle with a generous
+					// one-shot query whether this path exists at all
+					if len(p.pcond) > 0 {
+						if rr, _, _, _, _ := smt.Race(x.raceSolvers(), p.pcond, nil, 30000); rr == smt.Unsat {
+							res.Status, res.Msg = "infeasible", "path condition unsatisfiable (found after a harness panic)"
+							return
+						}
+					}
 					res.Status, res.Msg = "harness-error", "panic outside sym.NoPanic/Panics: "+in.panicText(r)+"\n"+r.stack
 				default:
 					panic(r)
